@@ -79,7 +79,8 @@ func (n *InfluxQLNode) MarshalJSON() ([]byte, error) {
 			ID:   n.ID(),
 		},
 		Alias: (*Alias)(n),
-		Args:  n.Args,
+		// Durations are written as strings: work on a copy, the node itself must not change.
+		Args: append([]interface{}(nil), n.Args...),
 	}
 	for i, arg := range raw.Args {
 		switch dur := arg.(type) {
